@@ -269,11 +269,54 @@ def lg_record_validate(prop, tier, seed, res, n, checks, exe=None, label="lg"):
     return files
 
 
+def lg_beh_validate(prop, tier, seed, res, checks, phase=0, only_value=False):
+    """exhaustive small scope for the lazy APIs: the texts explored by MC_JsonText (well-formed and malformed) x candidate paths
+    through get / get_many / iterators, validated by Trace_LazyGet.  quick: a stride sample of about 2500 texts; thorough: about 100000"""
+    beh, st = jt_behaviours(tier)
+    exe = build_harness()
+    out = fresh(prop, "lg_beh")
+    shards = 16
+    want = 2500 if tier == QUICK else 100000
+    # texts whose first value is complete are about a twentieth of the explored texts
+    stride = max(1, int(st.get("emitted", 0)) // (want * (20 if only_value else 1)))
+    rc, o, err = run_vh(exe, ["lg-record-beh", "--beh", beh, "--tables", tables(), "--stride", stride, "--phase", (phase + seed) % stride, "--seed", seed,
+                             "--out", os.path.join(out, "trace"), "--shards", shards] + (["--filter", "value"] if only_value else []), inflight=os.path.join(out, "inflight"))
+    if rc != 0:
+        cid, hx = read_inflight(os.path.join(out, "inflight"))
+        res.add_mismatch({"suite": "lg-record-beh", "class": "crash", "kind": "crash", "rc": rc, "case": cid, "bytes_hex": hx,
+                          "bytes_lossy": bytes.fromhex(hx).decode("utf-8", "replace") if hx else "",
+                          "why": "process died (rc %s) while recording explored text %s: %s" % (rc, cid, err[-300:])})
+        return
+    summ = json.loads(o.strip().splitlines()[-1])
+    files = [os.path.join(out, "trace.%d.ndjson" % i) for i in range(shards)]
+    t0 = time.time()
+    accepted, rejects = tlc_trace("Trace_LazyGet", files, consts={"Checks": "{%s}" % ", ".join('"%s"' % c for c in checks)})
+    log("lazy-get over explored texts: %d events accepted, %d rejects, %.1fs" % (accepted, len(rejects), time.time() - t0))
+    for r in rejects:
+        ev = r["event"] or {}
+        bad = json.loads(r["why"]) if r["why"].startswith("[") else [r["why"]]
+        for ep in bad:
+            x = ev.get("res", {}).get(ep, {})
+            res.add_mismatch({"suite": "lg-beh-trace", "ev": ev.get("ev"), "ep": ep, "kind": ev.get("origin"),
+                              "bytes_hex": bytes(ev.get("b", [])).hex(), "bytes_lossy": bytes(ev.get("b", [])).decode("utf-8", "replace"),
+                              "path": ev.get("path", ev.get("paths")), "impl": x,
+                              "why": "explored text, trace line %d (%s event) rejected by Trace_LazyGet for entry point %s" % (r["line_no"], ev.get("ev"), ep),
+                              "trace_file": r["file"], "line_no": r["line_no"]})
+    c = res.coverage
+    c["traces_validated_against_impl"] += accepted
+    c["states"] += accepted + len(files)
+    c["transitions"] += accepted
+    c["evaluations"] += summ["events"]
+    c.setdefault("record", {})["lg_beh"] = dict(summ, accepted_lines=accepted, rejected=len(rejects))
+    c.setdefault("tlc", {})["MC_JsonText"] = {k: st[k] for k in st if k in ("states", "distinct", "emitted", "seconds", "reused_from_cache")}
+
+
 def check_C10(tier, seed):
     res = Result("C10", tier, seed, "model_checking")
     res.coverage["rule"] = ("recorded get / get_unchecked / carrier / DOM-lazy-owned pointer calls on generated, mutated and block-edge stress documents; TLC recomputes "
                             "Lookup(Denotes(bytes), path) (first member wins) and compares Ok/Err, the returned span by byte offsets, and the error category")
     lg_record_validate("C10", tier, seed, res, 12000 if tier == QUICK else 300000, ("c10", "panic"))
+    lg_beh_validate("C10", tier, seed, res, ("c10", "panic"), phase=0, only_value=True)
     return res.finish()
 
 
@@ -283,6 +326,7 @@ def check_C11(tier, seed):
                             "missing keys) on generated duplicate-free documents: TLC checks one slot per path in order, filled slot = Lookup span, empty slot = unknown key, "
                             "all filled when every path resolves")
     lg_record_validate("C11", tier, seed + 11, res, 6000 if tier == QUICK else 200000, ("c11", "panic"))
+    lg_beh_validate("C11", tier, seed, res, ("c11", "panic"), phase=1, only_value=True)
     return res.finish()
 
 
@@ -292,6 +336,7 @@ def check_C12(tier, seed):
                             "the first error/end: TLC compares the yielded spans and decoded keys with Members(first value) on well-formed input, with the members "
                             "completed before the lax machine rejects on malformed input (then exactly one error), and checks the latch")
     lg_record_validate("C12", tier, seed + 12, res, 6000 if tier == QUICK else 200000, ("c12", "latch", "stream", "panic"))
+    lg_beh_validate("C12", tier, seed, res, ("c12", "latch", "stream", "panic"), phase=2, only_value=True)
     return res.finish()
 
 
@@ -301,6 +346,7 @@ def check_C14(tier, seed):
                             "text is a well-formed value with valid UTF-8 inside the input, and that the lax machine run over the bytes before it, without rejecting, is "
                             "exactly at the value of the target (one open container per path element, wanted key pending / index reached)")
     lg_record_validate("C14", tier, seed + 14, res, 6000 if tier == QUICK else 200000, ("c14", "panic"))
+    lg_beh_validate("C14", tier, seed, res, ("c14", "panic"), phase=3)
     return res.finish()
 
 
